@@ -105,7 +105,7 @@ def vmerge(a, b):
 def close_val(a, b, tol=1e-12):
     if a[0] != b[0] or len(a[1]) != len(b[1]):
         return False
-    return all((math.isnan(x) and math.isnan(y)) or abs(x - y) <= tol * max(1.0, abs(x), abs(y)) for x, y in zip(a[1], b[1]))
+    return all((math.isnan(x) and math.isnan(y)) or x == y or (math.isfinite(x) and math.isfinite(y) and abs(x - y) <= tol * max(1.0, abs(x), abs(y))) for x, y in zip(a[1], b[1]))
 
 
 def close_list(A, B):
@@ -393,7 +393,7 @@ class EmWorld:
             # order independence
             R = Emulsion(list(E)[::-1])
             s1, s2 = E.get_size_statistics(), R.get_size_statistics()
-            ctx.check("C20.summary", all(abs(s1[k] - s2[k]) <= 1e-12 * max(1, abs(s1[k])) for k in s1) and abs(R.total_droplet_volume - tv) <= 1e-12 * max(1, tv)
+            ctx.check("C20.summary", all(s1[k] == s2[k] or (math.isfinite(s1[k]) and math.isfinite(s2[k]) and abs(s1[k] - s2[k]) <= 1e-12 * max(1, abs(s1[k]))) or (math.isnan(s1[k]) and math.isnan(s2[k])) for k in s1) and abs(R.total_droplet_volume - tv) <= 1e-12 * max(1, tv)
                       and np.allclose(np.asarray(R.bbox.bounds), bb, rtol=0, atol=1e-12), {"what": "order-independence"}, tags)
             if len({v[0] for v in m}) == 1 and len({vlayout(v) for v in m}) == 1:
                 data = E.data
@@ -778,7 +778,7 @@ def deep_eq(a, b):
     if isinstance(a, str) or isinstance(b, str):
         return a == b
     if isinstance(a, (int, float)) and isinstance(b, (int, float)):
-        return (math.isnan(a) and math.isnan(b)) or abs(a - b) <= 1e-12 * max(1.0, abs(a), abs(b))
+        return (math.isnan(a) and math.isnan(b)) or a == b or (math.isfinite(a) and math.isfinite(b) and abs(a - b) <= 1e-12 * max(1.0, abs(a), abs(b)))
     if isinstance(a, (list, tuple)) and isinstance(b, (list, tuple)):
         return len(a) == len(b) and all(deep_eq(x, y) for x, y in zip(a, b))
     if isinstance(a, dict) and isinstance(b, dict):
